@@ -1444,6 +1444,7 @@ func (w *envelopingWriter) Write(data []byte) (n int, err error) {
 		}
 		if w.writingEnvelope {
 			if err := w.handleEnvelopeWritten(); err != nil {
+				w.err = err // nothing more can be written after a framing error
 				return written, err
 			}
 			continue
@@ -1451,6 +1452,7 @@ func (w *envelopingWriter) Write(data []byte) (n int, err error) {
 
 		if w.currentIsTrailer {
 			if err := w.handleTrailer(); err != nil {
+				w.err = err
 				return written, err
 			}
 			if len(data) == 0 {
@@ -1709,11 +1711,13 @@ func (w *transformingWriter) Write(data []byte) (n int, err error) {
 			if err != nil {
 				err = malformedRequestError(err)
 				w.rw.reportError(err)
+				w.err = err
 				return written, err
 			}
 			if limit := w.rw.op.methodConf.maxMsgBufferBytes; w.latestEnvelope.length > limit {
 				err = bufferLimitError(int64(limit))
 				w.rw.reportError(err)
+				w.err = err
 				return written, err
 			}
 			w.buffer = w.msg.reset(w.rw.op.bufferPool, false, w.latestEnvelope.compressed)
@@ -1723,6 +1727,7 @@ func (w *transformingWriter) Write(data []byte) (n int, err error) {
 		} else {
 			if err := w.flushMessage(); err != nil {
 				w.rw.reportError(err)
+				w.err = err // the message buffers may have been released: stop here
 				return written, err
 			}
 			if w.latestEnvelope.trailer && len(data) == 0 {
@@ -1737,8 +1742,8 @@ func (w *transformingWriter) Write(data []byte) (n int, err error) {
 }
 
 func (w *transformingWriter) Close() error {
-	if w.expectingBytes == -1 && w.err != nil {
-		// already failed; nothing more to send
+	if w.err != nil {
+		// already failed or finished; nothing more to send or to examine
 	} else if w.expectingBytes == -1 {
 		if err := w.flushMessage(); err != nil {
 			w.rw.reportError(err)
